@@ -10,7 +10,10 @@ VARIANTS = ["4d:America/Chicago:0:23:base", "10d:Europe/London:7:15:rep", "40d:A
             "30d:America/Chicago:0:23:empty-observed", "6d:America/Chicago:3:23:rep",
             # first / last supplied day is a clock-change day (23 and 25 hours)
             "10d@2020-02-28:America/Chicago:0:23:rep", "10d@2020-10-23:America/Chicago:4:23:base", "5d@2020-03-08:America/Chicago:0:23:rep",
-            "8d@2020-10-25:Europe/London:0:23:base"]
+            "8d@2020-10-25:Europe/London:0:23:base",
+            # one long contiguous outage of a column elsewhere in the frame (out<column><days>): longer than the autocorrelation fill
+            # can bridge, so that the later fill stages are reached; judged through the counters over the rest of the frame
+            "40d:America/Chicago:0:23:outT6", "60d:Europe/London:0:23:outO16", "400d:America/Chicago:0:23:outT21", "30d:Asia/Kolkata:0:23:outG5"]
 _st = {}
 
 
@@ -58,6 +61,14 @@ def realise(cin, variant):
         fr["observed"] = np.nan
         cin2 = dict(cin, emptyCol="observed", cells=[dict(c, obs="nan") if c["row"] != "absent" else c for c in cin["cells"]])
     pos0 = 24 + (7 * n + days) % max(1, len(fr) - 60)
+    if mode.startswith("out"):
+        col = {"T": "temperature", "O": "observed", "G": "ghi"}[mode[3]]
+        if col in fr.columns:
+            span = 24 * int(mode[4:])
+            a = len(fr) // 2 + 48
+            if a - 3 <= pos0 + n and pos0 <= a + span + 3:      # keep the outage clear of the pattern under test
+                a = 72 if pos0 > len(fr) // 2 else len(fr) - span - 72
+            fr.iloc[a: a + span, fr.columns.get_loc(col)] = np.nan
     drop, dups = [], []
     colmap = {"T": "temperature", "obs": "observed", "G": "ghi"}
     for i, c in enumerate(cin["cells"]):
